@@ -44,68 +44,13 @@ PROPS = {
     "C10": {
         "theorems": ["NLE.Theorems.C10"],
         "models": ["Own"],
-        "modes": scen("takeover", "takeoverstop", "tamper"),
+        "modes": scen("takeover", "takeoverstop", "tamper", "stoppoints"),
         "level": "proof",
-        "claim": "Safety clause proved for every execution of the ownership model and every assignment of priorities and flags: a record written by somebody else is replaced only by an instance with takeover enabled and a priority strictly greater than the stored one; with takeover disabled never. The promptness clause (3 heartbeat intervals) is validated by scenario sweeps, not proved (partial).",
+        "claim": "Safety proved for every execution of the ownership model and every assignment of priorities and flags: a record written by somebody else is replaced only by an instance with takeover enabled and a priority strictly greater than the stored one; with takeover disabled never. Promptness proved in the timed model NLE/Model/Prompt.lean of the watcher mechanism (incumbent's refresh cadence H-L..H+L, every refresh notified within W, the second notification of a known owner starts a takeover attempt of at most 3L, the attempt succeeds unless a refresh lands inside it): with W + 4L < H an attempt started by a notification is never spoilt (derived invariant) and the follower leads within 2(H+L) + W + 3L of becoming eligible, which is below 3H for latencies and delays up to H/10 (takeover_within_bound, within_three_intervals; tight example). Partial: the Prompt model's assumptions about the watcher are validated end-to-end by the monitor C10/takeover-not-prompt on every fault-free takeover scenario, not tied to the code by an acceptor; 'leadership then stays with the highest-priority instance' is validated (C07 monitor in takeover scenarios).",
         "design_ref": "§6 C10",
-        "rule": "2-5 instances with priorities 0..3 and mixed takeover flags, random start orders, slow readers; distinct non-trivial = (scenario, trigger) pairs with an applied takeover",
+        "rule": "2-5 instances with priorities 0..3 and mixed takeover flags, random start orders, slow readers, stops between the Get and the Update of a takeover; distinct non-trivial = (scenario, trigger) pairs with an applied takeover",
         "trusted_base": SCEN_TB,
-        "assumptions": ["promptness clause not proved (partial)"],
-    },
-    "C02": {
-        "theorems": ["NLE.Theorems.C02"],
-        "models": ["Lease", "Own", "Life"],
-        "modes": scen("lease", "restart", "basic", "stoppoints", "health", q=150, t=2500),
-        "level": "proof",
-        "claim": "Theorems over every execution of the timed lease model NLE/Model/Lease.lean (any number of instances with their own heartbeat intervals, any valid TTL >= 3H, any interleaving of issue / application / answer of Create, refresh and Delete, expiry, flag changes, starts and stops): inductive invariant 'every claimant owns the live record, which was applied at a with now <= a + 2H < a + TTL'; hence at most one claimant at every instant (at_most_one_leader), every claim is backed by a live unexpired record naming the claimant (claim_backed), no expiry and no Create can be applied under a claim. The token half is Own's invariant leadOwn (claim_carries_own_token). The guards the model imposes on the implementation and on the store (Create only on a vacant key; flag raised only on the acknowledgement, within H/2, of the instance's own applied Create; refresh applied within 2H of the previous application - derived from the loop's schedule in first/next/chain_refresh_in_time; Delete only after the flag is cleared; no expiry before the TTL) are checked on every trace of every scenario that promises the property's hypotheses (acceptor Lease.step), together with the C02 monitor (two-leaders, claim-not-backed at every flag change).",
-        "design_ref": "§6 C02",
-        "rule": "generator lease: 2-5 instances, H in {200,300,500,1000} ms with per-instance halves, TTL ratio 3-6, latencies up to just below H/2, watch delays up to 2H (optionally 30 % lost), each instance with a random life of Start / Stop / StopWithContext(all options) / restart; plus basic, stoppoints and health scenarios; distinct non-trivial = (scenario, trigger) pairs with a flag change",
-        "trusted_base": [t.replace("NLE/Model/Own.lean", "NLE/Model/Lease.lean (plus Own.lean, Life.lean)") for t in SCEN_TB],
-        "assumptions": ["hypotheses of the property: answers within H/2, no outside writer, no preemption (promised by the generator, re-checked by the monitors: HYP notes)", "the refresh-urgency guard (next refresh applied within 2H) is an assumption of the model about the heartbeat loop, derived arithmetically from the loop's schedule (C03 Chain) and checked on every trace"],
-    },
-    "C06": {
-        "theorems": ["NLE.Theorems.C06"],
-        "models": ["Cand", "Lease", "Life"],
-        "modes": scen("vacancy", "lease", "faults", "stoppoints", "health", q=150, t=2500),
-        "level": "proof",
-        "claim": "Theorems over every execution of the timed vacancy model NLE/Model/Vac.lean (one healthy candidate: periodic check every 500 ms delayed by at most one blocking call, acquisition round with jitter <= 100 ms, operations applied and answered within L; constants regenerated; no watch notification in the model at all; any interleaving with other instances' writes, deletions, expiries, overlapping rounds): inductive invariant 'while the key is vacant some pending obligation's deadline chain ends within the bound', hence the key is never vacant for longer than 500 ms + 100 ms + 3L + B (B = L, or 3L for takeover-enabled instances: the time a running acquisition attempt of the same instance can keep the round waiting) counted from the later of the vacancy's beginning and the candidate becoming a healthy follower (vacancy_filled_within_bound); the check mechanism always has a pending deadline - candidates never give up (check_always_due); every miss is followed by a Create within the jitter; leaderless time after a crash <= TTL + bound + L (arithmetic corollary). The bound is tight (example run). Tie: the acceptor Cand.step maps every fault-free trace with a promised latency to the model's actions per follower (periodic checks identified by their call site checkKeyAndReelect, which the harness reports) and rejects overdue checks, missing Creates and slow operations; the end-to-end bound is evaluated on every trace, incl. transient store / watch faults (after they cease), by the monitor C06/vacancy-not-filled.",
-        "design_ref": "§6 C06",
-        "rule": "vacancy by graceful stop with deletion, crash, partition (expiry), outside deletion; watch notifications delivered, 30 % lost or all lost; Watch call failures on a candidate; transient store faults before the vacancy; 2-5 instances, H in {200,500,1000} ms; distinct non-trivial = (scenario, trigger) pairs with a vacancy that was filled",
-        "trusted_base": [t.replace("NLE/Model/Own.lean", "NLE/Model/Vac.lean via the acceptor NLE/Model/Cand.lean") for t in SCEN_TB] + ["the harness's report of the call site of each store operation (runtime.Callers)"],
-        "assumptions": ["responsive store (latency bound promised by the generator) for the candidates; the acceptor runs on traces without injected store faults, the monitor on all", "a store Create on a vacant key succeeds and a Get on a vacant key returns no record (C14)"],
-    },
-    "C07": {
-        "theorems": ["NLE.Theorems.C07"],
-        "models": ["Lease", "HB", "Life", "Conn"],
-        "modes": scen("lease", "basic", q=150, t=2500),
-        "level": "proof",
-        "claim": "Theorems over the lease model: a claim survives every step of every accepted execution unless the claimant itself lowers its flag (claim_survives_step); while it stands the record stays live and keeps naming the claimant - it cannot expire, be created over, be refreshed by another instance or be deleted (record_keeps_owner). The mechanisms that lower a flag do not fire in fault-free operation: the refresh counter never demotes on successes, the health counter never on healthy results (HB decision functions), the connection mechanism needs a notification (Conn), the lifecycle a stop call (Life). Implementation held to the models by trace acceptance on every fault-free scenario; the C07 monitor flags any cleared flag of a leader with no stop call in a fault-free trace (late / duplicated watch events, periodic checks, leftover acquisition attempts and competing instances are what the generators produce).",
-        "design_ref": "§6 C07",
-        "rule": "fault-free scenarios of the generators lease and basic (see C02): other instances start, stop and lose races, watch notifications are delayed up to 2H; distinct non-trivial = (scenario, trigger) pairs with a term start",
-        "trusted_base": [t.replace("NLE/Model/Own.lean", "NLE/Model/Lease.lean, HB.lean, Life.lean, Conn.lean") for t in SCEN_TB],
-        "assumptions": ["fault-free hypotheses of the property", "the watcher's reaction to stale notifications is covered by trace acceptance and the monitor, not by a theorem (partial)"],
-    },
-    "C13": {
-        "theorems": ["NLE.Theorems.C13"],
-        "models": ["Own", "Life", "Val"],
-        "modes": scen("tamper", "spin", "takeover", "faults", "acklosttakeover"),
-        "level": "proof",
-        "claim": "Theorems: one acquisition attempt issues at most three store operations for every record value (attemptOps, with the regenerated call graph showing that the acquisition path cannot reach itself); an unparsable record is never preempted; in the ownership model the flag is raised only with the token of an acquiring write of the same instance that the store applied and acknowledged, whatever the record held before and whoever rewrote it in between; a tampered record makes the refresh permanent-failed (C03) and validation negative (C04). Crashes, stack overflows, hangs and store hammering on the implementation are detected by the harness (exit status, watchdog, C13/store-hammering, C13/panic) on every scenario: validated, not proved.",
-        "design_ref": "§6 C13",
-        "rule": "record contents from the table of JSON shapes (non-JSON, arrays, scalars, wrong types, huge values, forged ids / tokens / priorities), outside writes and deletes at random moments incl. bursts, zero-latency stores (spin), takeover-enabled candidates; distinct non-trivial = (scenario, trigger) pairs with an outside write or an unparsable record",
-        "trusted_base": SCEN_TB,
-        "assumptions": ["absence of crash / hang / spinning is validated on the explored scenarios, not proved (partial)"],
-    },
-    "C14": {
-        "theorems": ["NLE.Theorems.C14"],
-        "models": [],
-        "modes": [("nats", 60, 400)] + scen("basic", "tamper", "faults", q=60, t=400),
-        "level": "proof",
-        "claim": "Theorems about the store model World.storeAnswer / World.mutate (JetStream KV semantics: Create only on a vacant key, Update only with the subject's last sequence - live revision, else delete marker, else 0 -, revisions strictly increasing, expiry consumes no sequence, Delete leaves a marker, other keys untouched). Tie: (a) the reference store of the harness is compared with the model on every trace of every scenario (store-model differences are correspondence differences of every scenario property), (b) the library's real adapter on an embedded nats-server is run against the reference store on generated operation sequences (results, error classes, revisions, watcher event sequences, expiry), incl. stability of the Updates() channel and the adapter's goroutines.",
-        "design_ref": "§6 C14",
-        "rule": "operation sequences of 6-25 Create / Update(latest, stale, bogus revision) / Get / Delete / Watch / drain / sleep-past-TTL on fresh keys of a bucket with TTL 1.2 s, 8 sequences in parallel, real time; distinct non-trivial = sequences",
-        "trusted_base": COMMON_TB + ["the embedded nats-server 2.x of the module cache as the meaning of 'real NATS KV'", "the reference store (harness/refstore.go), compared with both sides"],
-        "assumptions": ["wall-clock sleeps: expiry is compared only after TTL + slack"],
+        "assumptions": ["Prompt model: refresh cadence of the incumbent and notification delay bound (promised by the generator)", "W + 4L < H for the promptness bound"],
     },
     "C03": {
         "theorems": ["NLE.Theorems.C03", "NLE.Theorems.C15"],
